@@ -62,7 +62,7 @@ PROPS["C02"] = {
              'a corpus of 12 rounds (parameter sets on which the unchanged tree or the sanity mutants failed) runs first; distinct = distinct (store, persist, early, reset, senders, replay seen) shapes'),
     "assumptions": ["Go memory model, sync.Mutex / sync.RWMutex semantics, step granularity (see note)",
                     "schedules of the real engine are sampled by the stress family, never enumerated; a stress round is not replayable as a schedule - the recorded observation line is what the monitor judges",
-                    "memory store semantics for the sequential model's store; file store exercised in 1/8 of the stress rounds; SQL store not exercised"],
+                    "memory store semantics for the sequential model's store; file store exercised in 1/8 of the stress rounds; SQL store not exercised by the stress rounds; its statement-level interleavings (event loop's target-side update against a sending goroutine's save-and-increment) are driven deterministically by the store family's `sqlinter` op"],
     "trusted": ["harness/fam_conc.go event reconstruction: store events are recorded under the logging store's own lock in the order they happen, wire events in the order the peer reads the connection channel, "
                 "ResendRequest answers are delimited as the run of PossDup=Y messages covering the requested range"],
 }
